@@ -159,6 +159,7 @@ func VerifC19_StatusGate() {
 
 	var abstract webhookAbstract = &webhookExecutorPlain{}
 	var etagExec *webhookExecutorEtag
+	var entryBefore *eTagEntry
 	cacheState := 0 // 0 absent, 1 present, 2 expired
 	cachedEtag := ""
 	cachedBody := verifBodyCached
@@ -174,6 +175,7 @@ func VerifC19_StatusGate() {
 			}
 		}
 		entry := &eTagEntry{Etag: cachedEtag, Response: []byte(cachedBody)}
+		entryBefore = entry
 		switch cacheState {
 		case 0:
 			etagExec = &webhookExecutorEtag{etagCache: cache.New[eTagKey, *eTagEntry](0, 0)}
@@ -274,6 +276,15 @@ func VerifC19_StatusGate() {
 	if !statusOK {
 		rt.Cover("unsupported-status")
 		rt.Assert(err != nil, "call/nil-on-unsupported-status")
+		// a rejected answer leaves no trace: only accepted answers are cached
+		if etagMode {
+			e, ok := etagExec.etagCache.Get(key)
+			if cacheState == 1 {
+				rt.Assert(ok && e == entryBefore, "etag/rejected-answer-replaced-the-cached-entry")
+			} else {
+				rt.Assert(!ok, "etag/rejected-answer-was-cached")
+			}
+		}
 		return
 	}
 	if body.fail {
